@@ -262,7 +262,7 @@ impl Archive {
         options: &DeleteOptions,
         monitor: Arc<dyn Monitor>,
     ) -> Result<DeleteStats> {
-        let mut stats = DeleteStats::default();
+        let stats = DeleteStats::default();
         let start = Instant::now();
 
         // TODO: No need to lock for dry_run.
@@ -273,6 +273,34 @@ impl Archive {
         };
         debug!("Got gc lock");
 
+        // Whatever happens from here on, release the lock before returning: the lock's Drop
+        // can only spawn a task to remove the file, which is lost if the runtime shuts down
+        // first, and a leftover lock blocks every later backup.
+        match self
+            .delete_bands_locked(delete_band_ids, options, &gc_lock, monitor, stats, start)
+            .await
+        {
+            Ok(stats) => {
+                gc_lock.release().await?;
+                Ok(stats)
+            }
+            Err(err) => {
+                let _ = gc_lock.release().await;
+                Err(err)
+            }
+        }
+    }
+
+    /// The body of [Archive::delete_bands], run while the gc lock is held.
+    async fn delete_bands_locked(
+        &self,
+        delete_band_ids: &[BandId],
+        options: &DeleteOptions,
+        gc_lock: &gc_lock::GarbageCollectionLock,
+        monitor: Arc<dyn Monitor>,
+        mut stats: DeleteStats,
+        start: Instant,
+    ) -> Result<DeleteStats> {
         debug!("List band ids...");
         let mut keep_band_ids = self.list_band_ids().await?;
         keep_band_ids.retain(|b| !delete_band_ids.contains(b));
@@ -327,8 +355,6 @@ impl Archive {
             stats.deletion_errors += error_count;
             stats.deleted_block_count += unref_count - error_count;
         }
-        gc_lock.release().await?;
-
         stats.elapsed = start.elapsed();
         Ok(stats)
     }
